@@ -13,7 +13,7 @@ RULE = (
     "Hypothesis builds a blueprint (<= 6/10 nodes, tasks submitted in dry-run mode), optionally seals one more "
     "node with seal(), then draws a history of 1-8 operations on nodes of the graph: assign a parameter (valid "
     "value of the declared type, never a generated or constant parameter), set_meta, add_pretasks, request an "
-    "identifier. Oracle for every operation aimed at a configuration reachable from a submitted task or the "
+    "identifier, plus instance() and a second seal() (no mutation: the identity must survive them). Oracle for every operation aimed at a configuration reachable from a submitted task or the "
     "sealed node: the mutation raises and leaves values, meta flag and pre-task list unchanged; every "
     "identifier request returns the bytes recorded at sealing time; job directories are unchanged. "
     "Non-trivial = a mutation attempt aimed at a sealed node other than the submitted/sealed root itself "
@@ -24,16 +24,18 @@ ASSUMPTIONS = [
     "configurations not reachable from a sealed root stay mutable and are not asserted on",
     "the configuration returned by task_outputs is created after sealing and is not a target",
 ]
-MIN_CLASSES = {"quick": {"mutation-on-sealed": 3000, "target-below-root": 800, "op:assign": 1500, "op:setmeta": 500, "op:addpre": 300, "via-seal()": 500}, "thorough": {"target-below-root": 15000}}
+MIN_CLASSES = {"quick": {"mutation-on-sealed": 3000, "target-below-root": 800, "op:assign": 1500, "op:setmeta": 500, "op:addpre": 300, "via-seal()": 500, "op:instance": 300, "op:reseal": 300}, "thorough": {"target-below-root": 15000}}
 MAX_NODES = {"quick": 6, "thorough": 10}
 
-OPS = ["assign", "assign", "assign", "setmeta", "addpre", "addprefrom", "id", "id"]
+OPS = ["assign", "assign", "assign", "setmeta", "addpre", "addprefrom", "id", "id", "instance", "reseal"]
 
 
 def cases(ctx):
     @st.composite
     def _cases(draw):
-        bp = draw(bpl.blueprints(max_nodes=MAX_NODES[ctx.tier], min_nodes=2, density=35))
+        # (tasks returning one of their own parameters included: that parameter is marked after the
+        # identifiers were recorded, which only their cache hides)
+        bp = draw(bpl.blueprints(max_nodes=MAX_NODES[ctx.tier], min_nodes=2, density=35, own_param_outputs=True))
         return {
             "bp": bp,
             "seal": draw(st.one_of(st.none(), st.integers(0, 20))),
@@ -170,6 +172,18 @@ def prop(ctx, case):
             continue
         if i not in sealed:
             labels.add("target-unsealed(skipped)")
+            continue
+        if op in ("instance", "reseal"):
+            # not mutations: what a user does with a submitted configuration; the identity must survive
+            labels.add(f"op:{op}")
+            try:
+                if op == "instance":
+                    o.instance()
+                else:
+                    o.__xpm__.seal(DirectoryContext(ctx.scratch / "seal"))
+            except Exception:
+                labels.add(f"op:{op}:raised")
+            check_identity(f"after {op}() on sealed node {i}")
             continue
         before = state_of(o)
         what = None
